@@ -147,9 +147,14 @@ fn create_tour(
                 let activity_type = activity_type.unwrap_or_else(|| "arrival".to_string());
                 let is_break = activity_type == "break";
 
-                let job_tag = act.job.as_ref().and_then(|single| {
-                    get_job_tag(single, (act.place.location, (act.place.time.clone(), start.schedule.departure)))
-                        .cloned()
+                // NOTE: activity knows the index of the job place used, prefer it over matching by location
+                // and time as places of the same job can share location and have intersecting time windows
+                let job_tag = act.job.as_ref().and_then(|single| match single.dimens.get_place_tags() {
+                    Some(tags) if act.place.idx < single.places.len() => {
+                        tags.iter().find(|(place_idx, _)| *place_idx == act.place.idx).map(|(_, tag)| tag.clone())
+                    }
+                    _ => get_job_tag(single, (act.place.location, (act.place.time.clone(), start.schedule.departure)))
+                        .cloned(),
                 });
                 let job_id = match activity_type.as_str() {
                     "pickup" | "delivery" | "replacement" | "service" => {
